@@ -15,9 +15,9 @@ RULE = ("BFS over histories of new request (acquire; acquire whose callback rele
         "run() results are compared with a FIFO list reference. non-trivial = distinct (canonical state, "
         "exercised case) pairs for transitions in which a request had to wait, a release or a run() result "
         "granted none / one / a re-entrant cascade of waiters, or a pending / granted / running request was cancelled")
-BOUNDS = {"quick": "lock + semaphore limits 1..3; depth 8 (5 basic request kinds) and depth 7 (all 7 kinds, incl. "
+BOUNDS = {"quick": "lock + semaphore limits 1..3; depth 8 (5 basic request kinds) and depth 6 (all 7 kinds, incl. "
                    "fired-but-chained and fired-but-paused function Deferreds)",
-          "thorough": "lock + semaphore limits 1..3; depth 9 (5 basic request kinds) and depth 8 (all 7 kinds)"}
+          "thorough": "lock + semaphore limits 1..3; depth 9 (5 basic request kinds) and depth 7 (all 7 kinds)"}
 ASSUMPTIONS = [
     "canonical state = live (pending / held / running) requests in request order with kind and observed status, the "
     "real waiting list mapped to those requests, tokens/locked; completed, released and cancelled requests are "
@@ -43,7 +43,7 @@ KINDS = ["A", "AR", "RV", "RX", "RD"]
 KINDS_ALL = KINDS + ["RC", "RP"]
 LATE = ("RD", "RC", "RP")     # run() kinds whose function result arrives later
 # families (request kinds, depth) per tier
-FAMILIES = {"quick": [(KINDS, 8), (KINDS_ALL, 7)], "thorough": [(KINDS, 9), (KINDS_ALL, 8)]}
+FAMILIES = {"quick": [(KINDS, 8), (KINDS_ALL, 6)], "thorough": [(KINDS, 9), (KINDS_ALL, 7)]}
 
 
 class FnError(Exception):
